@@ -201,6 +201,9 @@ class Engine(Interp):
         h = getattr(base, "setitem", None)
         if h is not None:
             return h(self, idx, v, node)
+        w = getattr(base, "with_item", None)
+        if w is not None:      # immutable value: functional update written back to where it came from
+            return self.assign(node.value, w(self, idx, v))
         if isinstance(base, SObj):
             return self.call_method(base, "__setitem__", [idx, v], {}, node)
         raise Unsupported(f"{self.frame.qualname}:{self.line(node)} subscript store on {base!r}")
@@ -366,7 +369,7 @@ class Engine(Interp):
             out = []
             for cl in spec.invariant:
                 src, tags = self.clause(cl)
-                out.append((src, tags, self.spec_eval(src, dict(env), fr.old)))
+                out.append((src, tags, self.spec_eval(src, dict(env), fr.old, fr.contract.namespace if fr.contract else None)))
             return out
         for src, tags, t in inv_terms():
             self.ctx.oblige("inv-init", t, line, tags=tags or ctags, note=f"loop{k}: {src}")
@@ -401,7 +404,7 @@ class Engine(Interp):
             self.ctx.assume(t)
         m0 = None
         if spec.decreases:
-            m0 = int_term(self.spec_value(spec.decreases, dict(env), fr.old))
+            m0 = int_term(self.spec_value(spec.decreases, dict(env), fr.old, fr.contract.namespace if fr.contract else None))
         if test():
             try:
                 if pre_body:
@@ -417,7 +420,7 @@ class Engine(Interp):
             for src, tags, t in inv_terms():
                 self.ctx.oblige("inv-preserve", t, line, tags=tags or ctags, note=f"loop{k}: {src}")
             if m0 is not None:
-                m1 = int_term(self.spec_value(spec.decreases, dict(env), fr.old))
+                m1 = int_term(self.spec_value(spec.decreases, dict(env), fr.old, fr.contract.namespace if fr.contract else None))
                 self.ctx.oblige("decreases", z3.And(m0 >= 0, m1 < m0), line, tags=ctags, note=f"loop{k}")
             raise PathEnd()
         self.exec_block(orelse)
@@ -441,13 +444,19 @@ class Engine(Interp):
             env = fr.env
             args = fnode.args
             pnames = [a.arg for a in args.args]
-            if is_method:
+            is_cm = any(isinstance(dd, ast.Name) and dd.id == "classmethod" for dd in fnode.decorator_list)
+            if is_method and is_cm:
+                env[pnames[0]] = self.real_class(clsq)
+                pnames = pnames[1:]
+            elif is_method:
                 sname = pnames[0]
                 stype = c.self_type or clsq
                 env[sname] = self.reg.type(stype).fresh(self.ctx, "self")
                 if isinstance(env[sname], Sym) and not isinstance(env[sname], SObj):
                     self.ctx.assume(self.reg.type(stype).invariant(env[sname]))
                 pnames = pnames[1:]
+            if False:
+                pass
             for p in pnames + [a.arg for a in args.kwonlyargs]:
                 ts = c.params.get(p)
                 if ts is None:
@@ -459,7 +468,7 @@ class Engine(Interp):
                     self.ctx.assume(ty.invariant(v))
             for cl in c.requires:
                 src, _ = self.clause(cl)
-                self.ctx.assume(self.spec_eval(src, dict(env)))
+                self.ctx.assume(self.spec_eval(src, dict(env), None, c.namespace))
             self.ctx.oblige("pre-sat", z3.BoolVal(True), fnode.lineno, expect_sat=True, note="requires satisfiable")
             fr.old = {k: snapshot(v) for k, v in env.items()}
             old_for_frame = fr.old
@@ -485,11 +494,11 @@ class Engine(Interp):
         # iff-conditions of raises: a normal return means none of them held
         for exc_name, cond in c.raises.items():
             if cond is not None:
-                self.ctx.oblige("post", z3.Not(self.spec_eval(cond, dict(old))), line,
+                self.ctx.oblige("post", z3.Not(self.spec_eval(cond, dict(old), None, c.namespace)), line,
                                 note=f"returned although {exc_name} iff {cond}")
         for cl in c.ensures:
             src, tags = self.clause(cl)
-            self.ctx.oblige("post", self.spec_eval(src, post_env, old), line, tags=tags or tuple(c.tags),
+            self.ctx.oblige("post", self.spec_eval(src, post_env, old, c.namespace), line, tags=tags or tuple(c.tags),
                             note=src, assume_after=False)
         self.check_frame(c, env, old, line)
 
@@ -524,13 +533,13 @@ class Engine(Interp):
             cls_exc = self.exc_class(exc_name, modname)
             if issubclass(exc.cls, cls_exc):
                 if cond is not None:
-                    self.ctx.oblige("post-exc", self.spec_eval(cond, dict(old)), pr.line,
+                    self.ctx.oblige("post-exc", self.spec_eval(cond, dict(old), None, c.namespace), pr.line,
                                     note=f"raised {exc.cls.__name__} only if {cond}", assume_after=False)
                 else:
                     self.ctx.oblige("post-exc", z3.BoolVal(True), pr.line, note=f"may raise {exc_name}",
                                     assume_after=False)
                 for src in c.raises_ensures.get(exc_name, []):
-                    self.ctx.oblige("post-exc", self.spec_eval(src, dict(env), old), pr.line, note=src,
+                    self.ctx.oblige("post-exc", self.spec_eval(src, dict(env), old, c.namespace), pr.line, note=src,
                                     assume_after=False)
                 return
         self.ctx.oblige("post-exc", z3.BoolVal(False), pr.line,
@@ -688,15 +697,24 @@ def _m_hasattr(I, args, kwargs, node):
 
 
 def _m_getattr(I, args, kwargs, node):
-    if is_sym(args[1]):
-        raise Unsupported("getattr with a symbolic name")
     return I.getattr(args[0], args[1], node)
 
 
 def _m_setattr(I, args, kwargs, node):
-    if is_sym(args[1]):
-        raise Unsupported("setattr with a symbolic name")
-    I.setattr(args[0], args[1], args[2], node)
+    name = args[1]
+    if is_sym(name):
+        name = I.concretize(name)
+        if name is None:
+            # the class's own __setattr__ decides (it may narrow the name)
+            if isinstance(args[0], SObj) and I.src.class_has_method(args[0].cls, "__setattr__") and not I.in_setattr:
+                I.in_setattr = True
+                try:
+                    I.call_function(args[0].cls + ".__setattr__", args[0], [args[1], args[2]], {}, node)
+                finally:
+                    I.in_setattr = False
+                return None
+            raise Unsupported("setattr with a symbolic name")
+    I.setattr(args[0], name, args[2], node)
     return None
 
 
